@@ -25,7 +25,7 @@ func init() {
 			"inside a macro the includer's variables are the macro's parameters",
 			"error texts are not compared, only error-vs-output",
 		},
-		quick: 1728 + 60 + 20 + 72 + 16000, thorough: 1728 + 60 + 20 + 72 + 400000, minQuick: 2500, minThorough: 15000,
+		quick: 1728 + 60 + 20 + 72 + 72 + 16000, thorough: 1728 + 60 + 20 + 72 + 72 + 400000, minQuick: 2500, minThorough: 15000,
 	}})
 }
 
@@ -44,7 +44,9 @@ type c11Case struct {
 func (p *c11) build(c c11Case) (*mt.TmplSet, map[string]mt.Val) {
 	set := mt.NewSet()
 	probe := func(tag string) []mt.Stmt {
-		return []mt.Stmt{mt.T("[" + tag + ":"), mt.P(mt.V("a")), mt.T("|"), mt.P(mt.V("z")), mt.T("|"), mt.P(mt.V("q")), mt.T("|"), mt.P(mt.V("w")), mt.T("|"), mt.P(mt.V("ii")), mt.T("]")}
+		// nn is a variable of the includer whose value is null: defined wherever the includer's variables are visible
+		return []mt.Stmt{mt.T("[" + tag + ":"), mt.P(mt.V("a")), mt.T("|"), mt.P(mt.V("z")), mt.T("|"), mt.P(mt.V("q")), mt.T("|"), mt.P(mt.V("w")), mt.T("|"), mt.P(mt.V("ii")),
+			mt.T("|"), mt.P(mt.Cond{C: mt.IsDef{Name: "nn"}, A: mt.S("D"), B: mt.S("U")}), mt.P(mt.Cond{C: mt.IsDef{Name: "nn", Neg: true}, A: mt.S("u"), B: mt.S("d")}), mt.T("]")}
 	}
 	// innermost
 	set.Add("inc2", append(probe("i2"), mt.Set{Name: "a", E: mt.S("a-from-inc2")}, mt.Set{Name: "w", E: mt.S("w-from-inc2")}))
@@ -104,12 +106,12 @@ func (p *c11) build(c c11Case) (*mt.TmplSet, map[string]mt.Val) {
 	case 2:
 		main = append(main, mt.Block{Name: "content", Body: core})
 	default:
-		main = append(main, mt.Macro{Name: "wrap", Params: []string{"a", "z", "tname"}, Body: core}, mt.P(mt.MCall{Name: "wrap", Args: []mt.Expr{mt.V("a"), mt.V("z"), mt.V("tname")}}))
+		main = append(main, mt.Macro{Name: "wrap", Params: []string{"a", "z", "tname", "nn"}, Body: core}, mt.P(mt.MCall{Name: "wrap", Args: []mt.Expr{mt.V("a"), mt.V("z"), mt.V("tname"), mt.V("nn")}}))
 	}
 	main = append(main, mt.T("#"), mt.P(mt.MCall{Name: "mm"}), mt.T("#"), mt.Block{Name: "later", Body: []mt.Stmt{mt.T("LATER-MAIN:"), mt.P(mt.V("a"))}})
 	main = append(main, probe("end")...)
 	set.Add("main", main)
-	ctx := map[string]mt.Val{"a": "A", "z": "Z", "tname": target}
+	ctx := map[string]mt.Val{"a": "A", "z": "Z", "tname": target, "nn": nil}
 	return set, ctx
 }
 
@@ -323,6 +325,78 @@ func (p *c11) Run(rec *core.Recorder, seed uint64, idx int, tier string) {
 		return
 	}
 	idx -= 4 * 3 * 2 * 3
+	if idx < 6*4*3 {
+		// what the included template imports or defines stays in the included template: the includer's own macro of the
+		// same name is what the includer calls afterwards, and a name only the included template knows stays unknown
+		what, form, probe := idx%6, idx/6%4, idx/24%3
+		var incSrc string
+		switch what {
+		case 0:
+			incSrc = "{% from 'mlib' import badge %}i{{ badge('i') }}"
+		case 1:
+			incSrc = "{% from 'mlib' import other as badge %}i{{ badge('i') }}"
+		case 2:
+			incSrc = "{% import 'mlib' as badge %}i{{ badge.other('i') }}"
+		case 3:
+			incSrc = "{% macro badge(x) %}<INC:{{ x }}>{% endmacro %}i{{ badge('i') }}"
+		case 4:
+			incSrc = "{% from 'mlib' import badge, other %}{% from 'mlib' import other as extra %}i{{ extra('i') }}"
+		default:
+			incSrc = "{% include 'deeper' %}i"
+		}
+		inc := "{% include 'inc' %}"
+		switch form {
+		case 1:
+			inc = "{% include 'inc' with {'z': 1} %}"
+		case 2:
+			inc = "{% for k in [1, 2] %}{% include 'inc' %}{% endfor %}"
+		case 3:
+			inc = "{% include 'mid' %}"
+		}
+		srcs := map[string]string{
+			"mlib":   "{% macro badge(x) %}<LIB:{{ x }}>{% endmacro %}{% macro other(x) %}<LIB2:{{ x }}>{% endmacro %}",
+			"inc":    incSrc,
+			"mid":    "m{% include 'inc' %}",
+			"deeper": "{% from 'mlib' import other as badge %}{% from 'mlib' import other as extra %}d{{ badge('d') }}",
+		}
+		head := "{% macro badge(x) %}<MINE:{{ x }}>{% endmacro %}"
+		var after, wantTail string
+		wantErr := false
+		switch probe {
+		case 0:
+			after, wantTail = "{{ badge('m') }}", "<MINE:m>"
+		case 1:
+			after, wantTail = "{{ _self.badge('m') }}", "<MINE:m>"
+		default:
+			// control first: the name is unknown to the includer before the include, so it must be afterwards
+			after, wantErr = "{{ extra('m') }}", true
+		}
+		srcs["main"] = head + "[" + inc + "]" + after
+		srcs["control"] = head + "[]" + after
+		canon := canonSrcs(srcs)
+		rec.Eval("included-imports-stay-inside", canon, true)
+		res := renderFresh(srcs, "main", nil, nil)
+		ctl := renderFresh(srcs, "control", nil, nil)
+		if res.Panicked || ctl.Panicked {
+			rec.Violate("panic", "panic@"+res.Site+ctl.Site, "engine panicked: "+res.PanicVal+ctl.PanicVal, map[string]any{"templates": srcs}, res.Stack+ctl.Stack)
+			return
+		}
+		if wantErr {
+			if (ctl.Err != nil) != (res.Err != nil) {
+				rec.Violate("includer-state", fmt.Sprintf("included-name-leaks:what%d:form%d", what, form),
+					fmt.Sprintf("the includer calls a name only the included template imported: without the include err=%v, after the include out=%s err=%v", ctl.Err, core.Q(core.Trunc(res.Out, 200)), res.Err),
+					map[string]any{"templates": srcs}, "")
+			}
+			return
+		}
+		if res.Err != nil || !strings.HasSuffix(res.Out, "]"+wantTail) {
+			rec.Violate("includer-state", fmt.Sprintf("included-macro-replaces-includers:what%d:form%d:probe%d", what, form, probe),
+				fmt.Sprintf("after including a template that imports or defines a macro named like the includer's own, the includer's call gave %s (err=%v), want it to end with %s", core.Q(core.Trunc(res.Out, 200)), res.Err, core.Q(wantTail)),
+				map[string]any{"templates": srcs}, "")
+		}
+		return
+	}
+	idx -= 6 * 4 * 3
 	// thorough: random compositions (two includes, deeper nesting)
 	r := core.NewRand("C11", seed, idx)
 	c := c11Case{with: r.Bool(), only: r.Bool(), ignore: r.Bool(), sandboxed: r.P(1, 4), nameForm: r.Intn(3), placement: r.Intn(4), target: r.Intn(3), overlap: r.Intn(3)}
